@@ -467,6 +467,8 @@ pub fn sd(i: usize) -> u8 {
     unsafe { SEEDS[i] }
 }
 pub const K0: u8 = 9;
+/// a constant whose type reaches a `&[u8]` field by unsize coercion only (there is no `From<&[u8; 3]> for &[u8]`)
+pub const BYTES3: &[u8; 3] = &[1, 2, 3];
 pub struct Cfg;
 impl Cfg {
     pub const K: u8 = 11;
